@@ -92,13 +92,21 @@ Print Assumptions C11_no_abort.
 
 (* FULL in the continuation (l2 is ARBITRARY apart from the literal "-i", whose ambiguity is detected before any
    option is processed - see C11_unsafe_refuted_abbrev_ambiguous): whatever follows a safe prefix, everything the
-   prefix gives is in the configuration, in order, in front of whatever the rest contributes.  So each finding
-   class can only cost the options that come AFTER its first occurrence. *)
+   prefix gives is in the configuration, in order, followed by exactly what the rest contributes when parsed on its
+   own.  So each finding class can only cost the options that come AFTER its first occurrence. *)
 Theorem C11_safe_prefix_kept : forall l1 l2 : list string,
   safe l1 = true -> ~ In "-i" l2 ->
-  exists rest, lists_of (parse_args (List.app l1 l2)) = Some (app3v (some3 (scan_S l1)) rest).
-Proof. exact safe_prefix_kept. Qed.
+  exists rest, lists_of (parse_args l2) = Some rest /\
+               lists_of (parse_args (List.app l1 l2)) = Some (app3v (some3 (scan_S l1)) rest).
+Proof. exact safe_prefix_compose. Qed.
 Print Assumptions C11_safe_prefix_kept.
+
+(* ... and a catalogue option placed after a safe prefix is neutral WHATEVER follows (l2 arbitrary, "-i" excepted) *)
+Theorem C11_unknown_neutral_any_tail : forall l1 e l2 : list string,
+  safe l1 = true -> In e c11_catalogue -> ~ In "-i" l2 ->
+  lists_of (parse_args (List.app l1 (List.app e l2))) = lists_of (parse_args (List.app l1 l2)).
+Proof. exact neutral_any_tail. Qed.
+Print Assumptions C11_unknown_neutral_any_tail.
 
 (* order: the scanner is a homomorphism at every point where no flag awaits its value (all argv) ... *)
 Theorem C11_order_S : forall l1 l2 : list string,
